@@ -610,12 +610,15 @@ Lemma resume_answer : forall c i s r, c_up c = true -> c_wclosed c = false ->
   match r with
   | RespOk => snd (step c (EResumeResp i r)) = [OResumed i]
   | RespRefused => snd (step c (EResumeResp i r)) = [OCloseReq (c_gen c) i; OStreamClosed i true]
+  | RespConflict => snd (step c (EResumeResp i r)) = [OResumeReq (c_gen c) i (s_down s)] /\
+                    find_s i (c_streams (fst (step c (EResumeResp i r)))) = Some s
   end /\
   (* only that stream changes *)
   forall j, j <> i -> find_s j (c_streams (fst (step c (EResumeResp i r)))) = find_s j (c_streams c).
 Proof.
   intros c i s r U W Fi P H. cbn. unfold resume_resp_step. rewrite Fi, P, H, N.eqb_refl, W, U. cbn.
-  destruct r; cbn; (split; [reflexivity|intros j Hj; apply find_upd_other; [reflexivity|congruence]]).
+  destruct r; cbn; try (split; [reflexivity|intros j Hj; apply find_upd_other; [reflexivity|congruence]]).
+  split; [split; [reflexivity|exact Fi]|reflexivity].
 Qed.
 
 
@@ -870,7 +873,7 @@ Proof.
     destruct (find_s i0 (c_streams c)) as [s|] eqn:F; [|cbn; tauto].
     destruct (s_phase s) eqn:P; try (cbn; tauto).
     destruct ((s_held s =? c_gen c) && negb (c_wclosed c)) eqn:X.
-    + destruct (c_up c); [|cbn; tauto]. destruct r; cbn; [intuition discriminate|].
+    + destruct (c_up c); [|cbn; tauto]. destruct r; cbn; [intuition discriminate| |intuition discriminate].
       intros [H|[H|[]]]; [discriminate|]. inversion H; subst. exists s. split; [exact F|left; exists RespRefused; auto].
     + destruct (fix_f19 (c_cfg c) && negb (is_closed c)); cbn; [|tauto].
       intros [H|[]]. inversion H; subst. exists s. split; [exact F|left; exists r].
@@ -975,4 +978,78 @@ Lemma pending_stream_call_blocked_until_cancel : forall c i s a, find_s i (c_str
 Proof.
   intros c i s a Fi N. unfold pending_stream_call. rewrite Fi. destruct (s_phase s); try reflexivity.
   exfalso. eapply N. reflexivity.
+Qed.
+
+
+(* ------------------------------------------------------------------------------------------ *)
+(* event_dispatcher.go: the FIFO is drained before the loop exits; RESUME_REQUEST_CONFLICT is retried *)
+
+
+Definition dinv (s : dstate) (A : list N) : Prop :=
+  d_delivered s ++ d_batch s ++ d_q s = A /\ (d_running s = false -> d_batch s = []).
+
+Lemma dstep_inv : forall s e A, dinv s A ->
+  dinv (dstep false s e) (A ++ match e with DAdd h => [h] | _ => [] end).
+Proof.
+  intros s e A [H R]. unfold dinv.
+  destruct s as [q b rn dl cx ex]. cbn in *. destruct e; cbn.
+  - split; [rewrite <- H, <- !app_assoc; reflexivity|exact R].
+  - rewrite app_nil_r. auto.
+  - rewrite app_nil_r. destruct ex; cbn; [auto|]. destruct rn; cbn; [auto|].
+    rewrite (R eq_refl) in *. cbn in H.
+    destruct q; [destruct cx; cbn; auto|]. cbn. split; [rewrite app_nil_r; exact H|discriminate].
+  - rewrite app_nil_r. destruct rn; cbn; [|auto].
+    split; [rewrite <- H, <- app_assoc; reflexivity|reflexivity].
+Qed.
+
+Lemma drun_inv : forall evs s A, dinv s A -> dinv (drun false s evs) (A ++ dadds evs).
+Proof.
+  induction evs as [|e evs IH]; intros s A H; [cbn; rewrite app_nil_r; exact H|].
+  cbn [drun fold_left]. change (fold_left (dstep false) evs (dstep false s e)) with (drun false (dstep false s e) evs).
+  unfold dadds. cbn [map concat]. rewrite app_assoc. apply IH, dstep_inv, H.
+Qed.
+
+Lemma dinit_inv : dinv dinit []. Proof. split; [reflexivity|reflexivity]. Qed.
+
+Lemma dispatcher_drains_before_exit : forall pre e,
+  let s := drun false dinit pre in
+  d_exited s = false -> d_exited (dstep false s e) = true ->
+  e = DTake /\ d_delivered (dstep false s e) = dadds pre /\ d_q (dstep false s e) = [].
+Proof.
+  intros pre e s X Y. destruct (drun_inv pre dinit [] dinit_inv) as [H R]. fold s in H, R. cbn [app] in H.
+  destruct s as [q b rn dl cx ex]. cbn in *. subst ex.
+  destruct e; cbn in *; try congruence.
+  - destruct rn; cbn in *; [congruence|]. rewrite (R eq_refl) in H. cbn in H.
+    destruct q; [|cbn in Y; discriminate]. destruct cx; cbn in *; [|congruence].
+    rewrite app_nil_r in H. auto.
+  - destruct rn; cbn in Y; congruence.
+Qed.
+
+Lemma dispatcher_delivers : forall evs,
+  let s := drun false dinit evs in d_exited s = false ->
+  let s' := drun false s [DDone; DTake; DDone] in
+  d_delivered s' = dadds evs /\ d_q s' = [] /\ d_batch s' = [].
+Proof.
+  intros evs s X. destruct (drun_inv evs dinit [] dinit_inv) as [H R]. fold s in H, R. cbn [app] in H.
+  destruct s as [q b rn dl cx ex]. cbn in *. subst ex.
+  destruct rn; cbn.
+  - destruct q; cbn.
+    + destruct cx; cbn; rewrite <- H, ?app_nil_r; auto.
+    + rewrite <- H, <- app_assoc. auto.
+  - rewrite (R eq_refl) in H. cbn in H.
+    destruct q; cbn.
+    + destruct cx; cbn; rewrite <- H, ?app_nil_r; auto.
+    + rewrite <- H. auto.
+Qed.
+
+Lemma hasty_dispatcher_drops :
+  let s := drun true dinit [DAdd 1; DTake; DAdd 2; DCancel; DDone; DTake; DDone] in
+  d_exited s = true /\ d_delivered s = [1] /\ d_q s = [2].
+Proof. vm_compute. repeat split. Qed.
+
+Lemma resume_conflict_retries : forall c i s, c_up c = true -> c_wclosed c = false ->
+  find_s i (c_streams c) = Some s -> s_phase s = SResuming -> s_held s = c_gen c ->
+  step c (EResumeResp i RespConflict) = (c, [OResumeReq (c_gen c) i (s_down s)]).
+Proof.
+  intros c i s U W Fi P H. cbn. unfold resume_resp_step. rewrite Fi, P, H, N.eqb_refl, W, U. reflexivity.
 Qed.
